@@ -27,6 +27,10 @@ ASSUMPTIONS = [
 def check_failure(s, ev, out):
     u = ev['unit']
     x, t = u.jobid, u.target
+    if sim.reply_dropped_by_known_finding(s, ev):
+        out.fail(sim.KNOWN_DROP,
+                 f'{u} {ev["outcome"]}: reply dropped, errors={ev["errors"]}')
+        return
     before, after = ev['before'], ev['after']
     desc = s.ref.descendants[x]
     dep_pending = [d for d in desc if t in before[d][0]]
